@@ -25,7 +25,7 @@ class TableConstraint:
 
         if comments:
             for comment in comments:
-                if not comment.startswith("--") or not comment.startswith("/*"):
+                if not comment.startswith("--") and not comment.startswith("/*"):
                     log_message = f"Comment specified does not start with the schema comment prefix: {comment}."
                     logger.error(log_message)
                     raise MasterSchemaRowParsingError(log_message)
